@@ -2,3 +2,4 @@ SPECIFICATION Spec
 INVARIANTS TriggerCleanupAtMostOnce TriggerCleanupOnlyAfterOutstandingNext ResultAtMostOnce ResultAfterCleanup
 ACTION_CONSTRAINT EdgeLog
 CHECK_DEADLOCK FALSE
+CONSTANT Mut = "none"
